@@ -95,9 +95,9 @@ PROPS = {
         "rule": "the programs of the C01, C02, C03, C04, C05 and C13 generators that build a column-major tensor (both constructors: column-major over the raw backing, converting a row-major sequence) + the arithmetic / comparison / min-max / unary matrices with every operand and the reuse / incr destination drawn independently from {column-major raw, column-major converting, lazily transposed column-major, row-major contiguous, lazily transposed, sliced}, at least one operand column-major; results are compared with the specification on logical contents (= the row-major run)",
     },
     "C17": {
-        "lean_modules": ["C17"],
+        "lean_modules": ["C17", "C17compat"],
         "pre_cmds": ["cd tools/gox && go run . -repo /repo -out ../../lean/TensorModel/Generated"],
-        "rule": "X: every FuncDecl of internal/execution/generic_*.go (2 808 kernels) and every case arm of the eng_*.go dispatchers (103 methods, 1 208 arms) is regenerated into Lean tables on every run and proved to be the instance, for its own element type, of the type-generic template of its family (decide +kernel per chunk); H: the arithmetic, comparison, unary / Apply and reduction matrices (every operation x every element type x kernel variants vv / vs / sv / incr / iter / iter-incr / same / recv reached through layouts and option modes), results compared with Go's own operators",
+        "rule": "X: every FuncDecl of internal/execution/generic_*.go (2 808 kernels) and every case arm of the eng_*.go dispatchers (103 methods, 1 208 arms) is regenerated into Lean tables on every run and proved to be the instance, for its own element type, of the type-generic template of its family (decide +kernel per chunk); conversions: ToMat64 / FromMat64 / native accessors x every element type x layouts {contiguous, lazily transposed, sliced, stepped, materialised, column-major raw / converting} x value sets with negatives, extremes, NaN / Inf (terms tof64 / cvt.<dt> evaluated by Go's own conversions); H: the arithmetic, comparison, unary / Apply and reduction matrices (every operation x every element type x kernel variants vv / vs / sv / incr / iter / iter-incr / same / recv reached through layouts and option modes), results compared with Go's own operators",
         "trusted_extra": ["tools/gox (go/ast -> MiniGo tables: type abstraction, alpha-renaming) and the meaning of MiniGo constructs; operator tokens are names, evaluated by the Go compiler in the harness"],
     },
     "C18": {
